@@ -113,6 +113,7 @@ RULE = ("HTTP profile '%s': generated request histories (6-35 requests each, eve
 def check_C01(o, tier):
     o.add_audit(core.audit("C01", tier == "thorough"))
     http_check(o, tier, "C01", ["upload", "mix"], make_view(fields=("code", "loc", "dcd", "body")), RULE % "upload, mix", monitors_prefix="C01.")
+    upload_objects(o, tier, ("C01.",))
 
 
 def check_C02(o, tier):
@@ -147,8 +148,63 @@ def check_C07(o, tier):
                RULE % "refs, mix, limits, restart, gc", monitors_prefix="C07.", n_quick=150, n_thorough=4000)
 
 
+def upload_objects(o, tier, prefixes):
+    """store level (harness/inpkg/store/upload_harness_test.go): every call sequence up to a length on one session object -
+    two requests that address one session hold the same object - followed by a second session; monitors only: what a
+    successful Close published reads back intact, an ended session publishes nothing more and leaves no file"""
+    from .common import Built, T
+    b = Built.test_binary(o, "internal/store", [T("inpkg", "store", "upload_harness_test.go")], "upload_harness")
+    if b is None:
+        return
+    d = os.path.join(core.WORK, "runs", "uploadobj_%d" % os.getpid())
+    os.makedirs(d, exist_ok=True)
+    depth = 5 if tier == "quick" else 7
+    env = {"VERIF_IMPL": os.path.join(d, "impl"), "VERIF_MON": os.path.join(d, "mon"), "VERIF_N": depth}
+    ok, out = core.go_test_run(b, "^TestVerifUpload$", env)
+    impl = core.read_lines(env["VERIF_IMPL"]) if os.path.exists(env["VERIF_IMPL"]) else []
+    mon = core.read_lines(env["VERIF_MON"]) if os.path.exists(env["VERIF_MON"]) else []
+    # correspondence with the session object model (lean/Sess, driver sessdriver): outcome of every call, publication at the end
+    model = []
+    if impl and Built.driver(o, "sessdriver"):
+        with open(os.path.join(d, "ops"), "w") as f:
+            f.write("\n".join(l.split(" -> ")[0].replace("memdir ", "mem ", 1) for l in impl) + "\n")
+        okd, err = core.run_driver("sessdriver", os.path.join(d, "ops"), os.path.join(d, "model"))
+        model = core.read_lines(os.path.join(d, "model")) if okd else []
+    import shutil
+    shutil.rmtree(d, ignore_errors=True)
+    diffs = [(a, m) for a, m in zip(impl, model) if a.split(" -> ")[1] != m]
+    o.cov.setdefault("disagreements_checked", 0)
+    o.cov["disagreements_checked"] += len(model)
+    if impl and len(model) != len(impl):
+        o.violation("session object model: driver sessdriver gave %d answers for %d scenarios" % (len(model), len(impl)),
+                    {"kind": "correspondence", "profile": "store-upload-objects"}, no_input=True)
+    elif diffs and not mon:
+        a, m = diffs[0]
+        o.violation("correspondence 'store-upload-objects' no longer holds: %s | model: %s" % (a, m),
+                    {"kind": "correspondence", "profile": "store-upload-objects", "scenario": a, "model": m, "disagreements": len(diffs),
+                     "unchecked": "session object model lean/Sess (theorems C08.session_object_*) against internal/store upload objects"}, no_input=True)
+    o.cov["evaluations"] += len(impl)
+    o.cov["distinct_nontrivial"] += len(set(l.split(" -> ")[-1] for l in impl))
+    o.notes.setdefault("profiles", {})["store-upload-objects"] = {
+        "scenarios": len(impl), "max_sequence_length": depth, "stores": ["mem", "dir", "memdir"], "monitor_hits": len(mon),
+        "alphabet": ["Wa", "Wb", "Vbad", "Close", "Cancel"], "outcomes": len(set(l.split(" -> ")[-1] for l in impl))}
+    if not ok and not mon:
+        o.violation("upload object harness failed: %s" % out[-1500:], {"kind": "harness", "output": out[-4000:]}, no_input=True)
+        return
+    seen = set()
+    for l in mon:
+        t = l.split(" ", 3)
+        if len(t) < 4 or not any(t[2].startswith(p) for p in prefixes) or t[2] in seen:
+            continue
+        seen.add(t[2])
+        o.violation("monitor %s fails on the implementation: %s" % (t[2], t[3]),
+                    {"kind": "monitor", "profile": "store-upload-objects", "monitor": t[2], "detail": t[3],
+                     "replay_cmd": "bin/check %s quick (the scenario is the call sequence named in the detail, on the named store)" % o.prop})
+
+
 def check_C08(o, tier):
     o.add_audit(core.audit("C08", tier == "thorough"))
+    upload_objects(o, tier, ("C08.", "C01."))
     http_check(o, tier, "C08", ["upload"], make_view(ops=("UPOST", "UPATCH", "UPUT", "UGET", "UDEL", "BGET", "BHEAD"), fields=("code", "loc", "range", "body")),
                RULE % "upload", monitors_prefix="C08.")
     # session bound: monitors only (eviction is asynchronous in the implementation; the cache itself is C20)
@@ -177,8 +233,10 @@ def check_C16(o, tier):
 def check_C10(o, tier):
     o.add_audit(core.audit("C10", tier == "thorough"))
     # the same histories on the three stores against one model: Mem = Dir = MemOverDir; restarts; layout monitors on the directory
+    # "closing the server and opening a new one on the same directory … yields the same observable state": an acknowledged item
+    # that is not found after the restart (C02.readback, plain name only: the labelled causes are C02's known findings) decides too
     http_check(o, tier, "C10", ["restart"], make_view(fields=("code", "dcd", "body", "ct")), RULE % "restart, mix, rofs", monitors_prefix="C10.",
-               n_quick=200, n_thorough=6000)
+               n_quick=200, n_thorough=6000, extra_monitors=("C02.readback",))
     http_check(o, tier, "C10", ["mix"], make_view(fields=("code", "dcd", "body", "ct")), RULE % "restart, mix, rofs", monitors_prefix="C10.",
                n_quick=200, n_thorough=6000)
     http_check(o, tier, "C10", ["rofs", "upload"], make_view(fields=("code", "dcd", "body", "ct")), RULE % "restart, mix, rofs, upload", monitors_prefix="C10.",
